@@ -31,8 +31,29 @@ func ruleR41(c *Ctx) {
 			evVAC
 			evINC
 		)
+		// explicit loops that close the gap (shiftloop.go): the loop counts as the copy it stands
+		// for, raised once where the loop starts; its stores are not single-slot moves
+		shiftInit := map[ast.Node]bool{}
+		shiftStore := map[ast.Node]bool{}
+		for _, sl := range c.shiftLoopsIn(u.Body) {
+			closesChildren := false
+			for _, a := range sl.arrays {
+				if strings.Contains(a, "children") && sl.dir == -1 {
+					closesChildren = true
+				}
+			}
+			if closesChildren {
+				shiftInit[sl.loop.Init] = true
+			}
+			for _, st := range sl.stores {
+				shiftStore[st] = true
+			}
+		}
 		ev := func(b *cfg.Block, i int, nd ast.Node) []int {
 			var out []int
+			if shiftInit[nd] {
+				out = append(out, evVAC)
+			}
 			ast.Inspect(nd, func(x ast.Node) bool {
 				switch y := x.(type) {
 				case *ast.IncDecStmt:
@@ -102,7 +123,7 @@ func ruleR41(c *Ctx) {
 		sorted := false
 		if au := m.ByName[k.Struct.Obj().Name()+".addChild"]; au != nil {
 			ast.Inspect(au.Body, func(x ast.Node) bool {
-				if call, ok := x.(*ast.CallExpr); ok && strings.HasPrefix(m.calleeName(call), "insertPos") {
+				if call, ok := x.(*ast.CallExpr); ok && isInsertPosCall(m, call) {
 					sorted = true
 				}
 				return true
@@ -113,7 +134,7 @@ func ruleR41(c *Ctx) {
 			moved := false
 			ast.Inspect(u.Body, func(x ast.Node) bool {
 				as, ok := x.(*ast.AssignStmt)
-				if !ok || as.Tok == token.DEFINE || len(as.Lhs) != len(as.Rhs) {
+				if !ok || as.Tok == token.DEFINE || len(as.Lhs) != len(as.Rhs) || shiftStore[as] {
 					return true
 				}
 				for i, l := range as.Lhs {
@@ -152,7 +173,7 @@ func ruleR41(c *Ctx) {
 			allLane := false
 			if au := m.ByName[k.Struct.Obj().Name()+".addChild"]; au != nil {
 				ast.Inspect(au.Body, func(x ast.Node) bool {
-					if call, ok := x.(*ast.CallExpr); ok && strings.HasPrefix(m.calleeName(call), "insertPos") {
+					if call, ok := x.(*ast.CallExpr); ok && isInsertPosCall(m, call) {
 						usesLen := false
 						for _, a := range call.Args {
 							if strings.Contains(exprText(a), "childrenLen") {
@@ -206,8 +227,8 @@ func ruleR41(c *Ctx) {
 						}
 						hasByte := false
 						for pi := 0; pi < sig.Params().Len(); pi++ {
-							if b, ok := sig.Params().At(pi).Type().Underlying().(*types.Basic); ok && (b.Kind() == types.Uint8 || b.Kind() == types.Byte) {
-								hasByte = true
+							if b, ok := sig.Params().At(pi).Type().Underlying().(*types.Basic); ok && (b.Kind() == types.Uint8 || b.Kind() == types.Byte) && !isModeType(m, sig.Params().At(pi).Type()) {
+								hasByte = true // a key byte to store (a direction or mode of a named type is not one)
 							}
 						}
 						if !hasByte {
@@ -360,4 +381,11 @@ func identOf(e ast.Expr) *ast.Ident {
 		return &ast.Ident{Name: "?"}
 	}
 	return id
+}
+
+// isInsertPosCall: the insert-position search of a sorted size class (insertPosNode4(keys, b),
+// keys.insertPos(b)).
+func isInsertPosCall(m *Model, call *ast.CallExpr) bool {
+	f := m.staticCallee(call)
+	return f != nil && f.Pkg() == m.Pkg && strings.HasPrefix(strings.ToLower(f.Name()), "insertpos")
 }
